@@ -301,16 +301,20 @@ def check_requests(ctx, P):
                 for fs in g.at(b):
                     st = [vs for k, vs in fs.items() if k[0] == "discr" and path_str(k[1]) == "self.state"]
                     states = st[0][1] if st and st[0][0] == "in" else {"?"}
-                    dn = [vs for k, vs in fs.items() if path_str(k) == "self.diag_needed"]
+                    # "diagnostics selected": the request-side service selector (C04/C08) has the value opposite
+                    # to the one under which Data_Exchange is sent
+                    from rules import C04
+                    sel = C04.service_selection_facts(ctx, P)
+                    dn = bool(sel) and all(fs.get(kk) is not None and fs.get(kk)[0] == "in" and not (fs.get(kk)[1] & vs[1]) for kk, vs in sel)
                     for s_ in states:
-                        table.setdefault(s_, set()).add(kind + (("diag_needed",) if dn and dn[0] == ("in", frozenset([True])) else ()))
+                        table.setdefault(s_, set()).add(kind + (("diag-selected",) if dn else ()))
     want = {
         "Offline": {(SAP["slave_diag"], SAP["master_ms0"], "SrdLow")},
         "WaitForParam": {(SAP["set_prm"], SAP["master_ms0"], "SrdLow")},
         "WaitForConfig": {(SAP["chk_cfg"], SAP["master_ms0"], "SrdLow")},
         "ValidateConfig": {(SAP["slave_diag"], SAP["master_ms0"], "SrdLow")},
-        "PreDataExchange": {(None, None, "SrdHigh"), (SAP["slave_diag"], SAP["master_ms0"], "SrdLow", "diag_needed")},
-        "DataExchange": {(None, None, "SrdHigh"), (SAP["slave_diag"], SAP["master_ms0"], "SrdLow", "diag_needed")},
+        "PreDataExchange": {(None, None, "SrdHigh"), (SAP["slave_diag"], SAP["master_ms0"], "SrdLow", "diag-selected")},
+        "DataExchange": {(None, None, "SrdHigh"), (SAP["slave_diag"], SAP["master_ms0"], "SrdLow", "diag-selected")},
     }
     for st in sorted(set(want) | set(table)):
         got = table.get(st, set())
